@@ -12,6 +12,17 @@ use std::ops::Bound;
 use std::panic::{catch_unwind, AssertUnwindSafe};
 use std::sync::atomic::{AtomicI64, Ordering as AO};
 
+/// upper bound on the number of entries a map can hold after the operations run so far in this
+/// process (no single operation adds more than a few dozen entries): implementation iterators are
+/// collected with `.take(iter_limit())`, so that an iterator that never ends cannot exhaust memory;
+/// on a correct implementation the bound is never reached
+fn iter_limit() -> usize {
+    64 * (WD_PROGRESS.load(AO::SeqCst) as usize + 16)
+}
+
+static WD_PROGRESS: AtomicI64 = AtomicI64::new(0);
+static WD_CURRENT: std::sync::Mutex<String> = std::sync::Mutex::new(String::new());
+
 mod damage;
 
 pub static LIVE_K: AtomicI64 = AtomicI64::new(0);
@@ -621,7 +632,7 @@ fn c14_oracle(t: &Map, c: &mut Ctx) -> (bool, bool) {
 type Mirror = BTreeMap<i64, (u64, i64)>;
 
 fn mirror_check(t: &Map, m: &Mirror, c: &mut Ctx) {
-    let got: Vec<(i64, u64, i64)> = t.items().map(|(k, v)| (k.z, k.id, v.v)).collect();
+    let got: Vec<(i64, u64, i64)> = t.items().take(iter_limit()).map(|(k, v)| (k.z, k.id, v.v)).collect();
     let want: Vec<(i64, u64, i64)> = m.iter().map(|(k, (id, v))| (*k, *id, *v)).collect();
     if got != want {
         c.viol("C01", &format!("contents differ from BTreeMap: got {:?} want {:?}", got, want));
@@ -872,10 +883,10 @@ fn do_tree_op(st: &mut TreeSt, toks: &[&str], c: &mut Ctx) -> String {
             format!("first={} last={}", s(f), s(l))
         }
         "SL" => {
-            let items: Vec<String> = t.items().map(|(k, v)| s_kv(k, v)).collect();
-            let fast: Vec<String> = t.items_fast().map(|(k, v)| s_kv(k, v)).collect();
-            let keys: Vec<String> = t.keys().map(s_key).collect();
-            let values: Vec<String> = t.values().map(|v| v.v.to_string()).collect();
+            let items: Vec<String> = t.items().take(iter_limit()).map(|(k, v)| s_kv(k, v)).collect();
+            let fast: Vec<String> = t.items_fast().take(iter_limit()).map(|(k, v)| s_kv(k, v)).collect();
+            let keys: Vec<String> = t.keys().take(iter_limit()).map(s_key).collect();
+            let values: Vec<String> = t.values().take(iter_limit()).map(|v| v.v.to_string()).collect();
             let slice: Vec<String> = t.slice().iter().map(|(k, v)| s_kv(k, v)).collect();
             let want: Vec<String> = m.iter().map(|(k, (id, v))| format!("{}:{}={}", k, id, v)).collect();
             for (name, got) in [("items", &items), ("items_fast", &fast), ("slice", &slice)] {
@@ -903,7 +914,7 @@ fn do_tree_op(st: &mut TreeSt, toks: &[&str], c: &mut Ctx) -> String {
             let (lk, lo, hk, hi) = (toks[1], p(toks[2]), toks[3], p(toks[4]));
             let (klo, khi) = (VKey::new(lo, 0), VKey::new(hi, 0));
             let got: Vec<(i64, u64, i64)> =
-                t.range((bound_of(lk, &klo), bound_of(hk, &khi))).map(|(k, v)| (k.z, k.id, v.v)).collect();
+                t.range((bound_of(lk, &klo), bound_of(hk, &khi))).take(iter_limit()).map(|(k, v)| (k.z, k.id, v.v)).collect();
             let want: Vec<(i64, u64, i64)> = m
                 .iter()
                 .filter(|(k, _)| in_bounds(**k, lk, lo, hk, hi))
@@ -919,7 +930,7 @@ fn do_tree_op(st: &mut TreeSt, toks: &[&str], c: &mut Ctx) -> String {
             let s = if toks[1] == "-" { None } else { Some(VKey::new(p(toks[1]), 0)) };
             let e = if toks[2] == "-" { None } else { Some(VKey::new(p(toks[2]), 0)) };
             let got: Vec<(i64, u64, i64)> =
-                t.items_range(s.as_ref(), e.as_ref()).map(|(k, v)| (k.z, k.id, v.v)).collect();
+                t.items_range(s.as_ref(), e.as_ref()).take(iter_limit()).map(|(k, v)| (k.z, k.id, v.v)).collect();
             let want: Vec<(i64, u64, i64)> = m
                 .iter()
                 .filter(|(k, _)| s.as_ref().is_none_or(|s| **k >= s.z) && e.as_ref().is_none_or(|e| **k < e.z))
@@ -951,6 +962,7 @@ fn do_tree_op(st: &mut TreeSt, toks: &[&str], c: &mut Ctx) -> String {
             let ke = VKey::new(e, 0);
             let got: Vec<(i64, u64, i64)> = match ids.get(pos) {
                 Some(id) => ItemIterator::new_from_position_with_bounds(&*t, *id, idx, bound_of(ek, &ke))
+                    .take(iter_limit())
                     .map(|(k, v)| (k.z, k.id, v.v))
                     .collect(),
                 None => vec![],
@@ -1361,6 +1373,33 @@ fn main() {
     let mut violf = std::io::BufWriter::new(std::fs::File::create(&args[3]).expect("viol file"));
     // silence the default panic message (panics are caught and reported as outputs)
     std::panic::set_hook(Box::new(|_| {}));
+    // watchdog: a call of the implementation that does not return (a loop that never ends) must not
+    // hang the check.  No progress for BPT_WATCHDOG seconds (default 60): the history is reported
+    // as a violation of whatever property is being checked ("VIOL * ...") and the process exits 4.
+    {
+        let viol_path = args[3].clone();
+        let secs: u64 = std::env::var("BPT_WATCHDOG").ok().and_then(|s| s.parse().ok()).unwrap_or(60);
+        std::thread::spawn(move || {
+            let (mut last, mut idle) = (u64::MAX, 0u64);
+            loop {
+                std::thread::sleep(std::time::Duration::from_secs(1));
+                let now = WD_PROGRESS.load(AO::SeqCst) as u64;
+                if now == last {
+                    idle += 1;
+                } else {
+                    last = now;
+                    idle = 0;
+                }
+                if idle >= secs {
+                    let cur = WD_CURRENT.lock().map(|g| g.clone()).unwrap_or_default();
+                    if let Ok(mut f) = std::fs::OpenOptions::new().append(true).create(true).open(&viol_path) {
+                        let _ = writeln!(f, "VIOL * {} non-termination: the call did not return within {} s", cur, secs);
+                    }
+                    std::process::exit(4);
+                }
+            }
+        });
+    }
     let mut st = St::Dead;
     let mut c = Ctx { out: String::new(), viol: vec![], hid: String::new(), step: 0, dump_every: 1, viol_count: 0, per_prop: HashMap::new() };
     let end_history = |st: &mut St, c: &mut Ctx| {
@@ -1455,6 +1494,10 @@ fn main() {
             }
         } else {
             c.step += 1;
+            WD_PROGRESS.fetch_add(1, AO::SeqCst);
+            if let Ok(mut g) = WD_CURRENT.lock() {
+                *g = format!("{} {}", c.hid, c.step);
+            }
             match &mut st {
                 St::Dead => {}
                 St::Tree(ts) => {
@@ -1533,6 +1576,7 @@ fn main() {
         for v in c.viol.drain(..) {
             writeln!(violf, "{}", v).unwrap();
         }
+        let _ = violf.flush();
     }
     end_history(&mut st, &mut c);
     trace.write_all(c.out.as_bytes()).unwrap();
